@@ -184,3 +184,50 @@ Example ex_sjoin_inner :
                   [(0, zb 0 0 2 2, false)], [(0, 0)]) =
   ([[1]], [1]).
 Proof. vm_compute. reflexivity. Qed.
+
+(* ---- histories: several collections alive in one process (Model/DaskRegistry.v) ---- *)
+From SP Require Import Model.DaskRegistry Proofs.DaskRegistryProofs.
+
+(* dask-expr returns the expression alive under the NAME of a frame's token.  For every
+   history of from_pandas calls and garbage collections, every returned collection holds
+   the frame it was made from, provided the token separates the frames passed in (which
+   the run checks on the real tokeniser with families of frames that differ only in the
+   slice offset of a shared geometry buffer, in one coordinate, in which row is missing,
+   in the active geometry) *)
+Theorem C06_registry_sound : forall (F T : Type) (tok : F -> T)
+    (T_eq_dec : forall a b : T, {a = b} + {a <> b}) (h : list (op F T)),
+  (forall a b, In (FromPandas a) h -> In (FromPandas b) h -> tok a = tok b -> a = b) ->
+  Forall (fun p => snd p = fst p) (run F T tok T_eq_dec [] h).
+Proof. exact registry_sound. Qed.
+Print Assumptions C06_registry_sound.
+
+(* the premise cannot be dropped: with one token for two frames the second collection
+   holds the rows of the first frame while that one is alive ... *)
+Theorem C06_registry_collision : forall (F T : Type) (tok : F -> T)
+    (T_eq_dec : forall a b : T, {a = b} + {a <> b}) (f g : F),
+  tok f = tok g ->
+  run F T tok T_eq_dec [] [FromPandas f; FromPandas g] = [(f, f); (g, f)].
+Proof. exact registry_collision. Qed.
+Print Assumptions C06_registry_collision.
+
+(* ... and its own rows once the first one has been collected: the failure needs the
+   history, which is why the run keeps every member of a family referenced *)
+Theorem C06_registry_collision_after_drop : forall (F T : Type) (tok : F -> T)
+    (T_eq_dec : forall a b : T, {a = b} + {a <> b}) (f g : F),
+  run F T tok T_eq_dec [] [FromPandas f; Drop (tok f); FromPandas g] = [(f, f); (g, g)].
+Proof. exact registry_collision_after_drop. Qed.
+Print Assumptions C06_registry_collision_after_drop.
+
+(* coordinates that are not small integers: the model's numbers are integers under ANY
+   common power-of-two scale, e.g. 0.1 + 0.2 = 10808639105689192 / 2^55 next to 0.3 =
+   10808639105689190 / 2^55: a partition box stored as 0.3 no longer meets the query that
+   starts at the true extreme, and the row would be lost; with the true box it is found *)
+Example ex_sliver :
+  let lo := 3602879701896397%Z in           (* 0.1 * 2^55 *)
+  let hi := 10808639105689192%Z in          (* (0.1 + 0.2) * 2^55 *)
+  let one := 36028797018963968%Z in         (* 1.0 * 2^55 *)
+  let q := (Some hi, Some one, Some 0%Z, Some one) in
+  c06_case ([[(0, zb lo lo lo lo, [false]); (1, zb hi hi hi hi, [true])]], [0], [q]) =
+  ([zb lo lo hi hi], zb lo lo hi hi, [Some lo; Some lo; Some hi; Some hi],
+   [([[0; 1]], [[1]], [1])]).
+Proof. vm_compute. reflexivity. Qed.
